@@ -188,6 +188,52 @@ static int simple_nodes(int P, unsigned seed, int n) {
     std::printf("OVERWRITE %ld WRITEONCE %ld BROADCAST %ld SPLIT %ld INDEXER %ld\n", ow, wo, bc, sp, ix);
     return 0;
 }
+// limseq: the counters of limiter_node<int,int> driven op by op and dumped after every op of LimModel.  The successor is a scripted receiver: while the
+// limiter's put is inside it, it performs the following script ops (decrements sent to the limiter's decrementer) until it meets op 2 (accept) or
+// op 3 (reject).  Script ops at top level: 1 = put (the ops up to the next 2/3 happen inside the put, if it is admitted), 4 d = decrement.
+// output per model op: result, my_count, my_tries, my_future_decrement.
+struct ScriptRecv : tbb::flow::receiver<int> {
+    typedef tbb::flow::limiter_node<int, int> lim_t;
+    tbb::flow::graph& g; lim_t* lim = nullptr; std::vector<i128>* script = nullptr; size_t* pos = nullptr; Out* out = nullptr; bool rejected_edge = false;
+    explicit ScriptRecv(tbb::flow::graph& g_) : g(g_) {}
+    void dump(long res) { out->put(res); out->put((long)lim->my_count); out->put((long)lim->my_tries); out->put((long)lim->my_future_decrement); }
+    tbb::detail::d2::graph_task* try_put_task(const int&) override {
+        dump(1);                                                        // op 1 admitted: my_tries already counts this put
+        for (;;) {
+            if (*pos + 1 >= script->size()) return tbb::detail::d2::SUCCESSFULLY_ENQUEUED;     // script ended inside a put: accept (not dumped)
+            int op = (int)(*script)[*pos]; long d = (long)(*script)[*pos + 1]; *pos += 2;
+            if (op == 4) { bool ok = d > 0; if (ok) lim->decrementer().try_put((int)d); dump(ok ? 1 : 0); }
+            else if (op == 2) return tbb::detail::d2::SUCCESSFULLY_ENQUEUED;
+            else if (op == 3) { rejected_edge = true; return nullptr; }
+            else dump(0);                                               // a put inside a put is not part of the script language: counted as a no-op
+        }
+    }
+    tbb::flow::graph& graph_reference() const override { return g; }
+    bool register_predecessor(predecessor_type&) override { return true; }     // the limiter hands the edge over when we reject
+    bool remove_predecessor(predecessor_type&) override { return true; }
+};
+static int lim_seq() {
+    std::vector<i128> c; Out o; Watchdog wd(20.0);
+    while (read_case(c)) {
+        wd.arm(&o);
+        tbb::flow::graph g; ScriptRecv::lim_t lim(g, (size_t)c[0]); ScriptRecv rc(g);
+        size_t pos = 1; rc.lim = &lim; rc.script = &c; rc.pos = &pos; rc.out = &o;
+        tbb::flow::make_edge(lim, rc);
+        while (pos + 1 < c.size()) {
+            int op = (int)c[pos]; long d = (long)c[pos + 1]; pos += 2;
+            if (rc.rejected_edge) { tbb::flow::make_edge(lim, rc); rc.rejected_edge = false; }      // the rejection reversed the edge: put it back
+            if (op == 1) {
+                size_t before = pos; bool acc = lim.try_put(0);
+                if (pos == before && !acc) rc.dump(0);                   // not admitted: the receiver was never called
+                else { rc.dump(1); }                                     // the dump of the closing op 2 / 3 (counters after the put finished)
+            } else if (op == 4) { bool ok = d > 0; if (ok) lim.decrementer().try_put((int)d); rc.dump(ok ? 1 : 0); }
+            else rc.dump(0);                                             // op 2 / 3 without a put in flight
+        }
+        g.wait_for_all();
+        wd.disarm(); o.flush();
+    }
+    return 0;
+}
 static int mt_join(int P, unsigned seed, int n, int policy) {   // two ports fed by different threads: queueing -> i-th with i-th; reserving -> all-or-nothing; key_matching -> same key
     tbb::global_control gc(tbb::global_control::max_allowed_parallelism, P);
     graph g;
@@ -218,6 +264,7 @@ static int mt_join(int P, unsigned seed, int n, int policy) {   // two ports fed
 
 int main(int argc, char** argv) {
     std::string mode = argc > 1 ? argv[1] : "";
+    if (mode == "limseq") return lim_seq();
     if (mode == "seq") {
         std::vector<i128> c; Out o; Watchdog wd(20.0);
         while (read_case(c)) {
